@@ -329,7 +329,7 @@ def compare_one(ctx, c, p, im, mv):
 
 
 def run(ctx):
-    n = 900 if ctx.quick else 20000
+    n = 900 if ctx.quick else 12000
     ncorpus = 160 if ctx.quick else None
     ctx.coverage["rule"] = ("generated statement soups (70%% at (1,1), 30%% at a shifted start position) + the F1/F3/F32/F33/F35 witnesses + "
                             "a sample (thorough: all) of the stdlib/site-packages .py files; model evaluated in the kernel on every generated "
